@@ -345,6 +345,19 @@ def merge_states(a: State, b: State):
     return out, cond
 
 
+def _direct_jumps(body) -> bool:
+    """break / continue / return directly in a loop body (not inside a nested loop or function)"""
+    stack = list(body)
+    while stack:
+        n = stack.pop()
+        if isinstance(n, (ast.Break, ast.Continue, ast.Return)):
+            return True
+        if isinstance(n, (ast.For, ast.While, ast.AsyncFor, ast.FunctionDef, ast.AsyncFunctionDef, ast.ClassDef, ast.Lambda)):
+            continue
+        stack.extend(ast.iter_child_nodes(n))
+    return False
+
+
 def _assigned_in(stmts):
     """Names / (base-name, attr) pairs possibly (re)bound inside a statement list (syntactic)."""
     names, attrs = set(), set()
@@ -577,6 +590,17 @@ class Evaluator:
         if not rets:
             return mk("noreturn"), None, []
         returns = [(s.pc, v) for s, v in rets]
+        if owner is not None and len(rets) > 1:
+            # an extracted helper with several returns: each returned value keeps the type tests of its own path (`if not
+            # isinstance(x, list): raise` ... `return x`), which the merge below would forget - the inlined original had them
+            # as the path condition of the statement that used the value
+            n0 = len(st.pc)
+            kept = []
+            for s_, v_ in rets:
+                facts = [l for l in s_.pc[n0:] if l.op == "call" and l.args[0].op == "global" and l.args[0].args[0] == "builtins.isinstance"
+                         and l.args[1] and any(x is l.args[1][0] for x in subterms(v_))]
+                kept.append((s_, mk("assume", conj(facts), v_) if facts else v_))
+            rets = kept
         state, val = rets[0]
         for s2, v2 in rets[1:]:
             merged, cond = merge_states(state, s2)
@@ -826,6 +850,23 @@ class Evaluator:
 
     def _s_For(self, s, st):
         it = self._expr(s.iter, st)
+        # a table-driven loop `for k, v in ((K1, a), (K2, b), (K3, c)): BODY` is BODY for each record in turn: unrolled, so that
+        # what flows into v is a, b, c themselves (label provenance, aliasing) and not "some element of a tuple"
+        if it.op in ("tuple", "list") and 1 <= len(it.args[0]) <= 6 and all(x.op in ("tuple", "list") for x in it.args[0]) \
+                and isinstance(s.target, (ast.Tuple, ast.List)) and not s.orelse and not _direct_jumps(s.body):
+            cur = st
+            out = []
+            for item in it.args[0]:
+                self._assign(s.target, item, cur, s)
+                exs = self._block(s.body, cur)
+                falls = [e for e in exs if e.kind == "fall"]
+                out.extend(e for e in exs if e.kind != "fall")
+                if not falls:
+                    return self._join(out) if out else []
+                cur = falls[0].state
+                for f in falls[1:]:
+                    cur, _c = merge_states(cur, f.state)
+            return self._join(out + [_Exit("fall", cur)])
         el = mk("elem", it)
         lev = self._emit("loop", s, st, iter=it, elem=el)
 
